@@ -14,31 +14,38 @@ SEMANTIC = re.compile(r"break outside|not declared|no visible label|already defi
                       r"to-be-closed|jumps into the scope|unknown attribute|too many|overflow|goto .* jumps")
 
 
+ORDER = ["Lua51", "Lua52", "Lua53", "Lua54", "Lua55"]
+
+
 def feature(tokens, level):
-    """Version-gated construct of a program (signature component for missed errors)."""
+    """The construct of the program that version `level` lacks (signature component for missed errors)."""
     t = tokens
+    below = lambda v: level in ORDER and ORDER.index(level) < ORDER.index(v)   # noqa: E731
     for i, x in enumerate(t):
-        if x in ("//", "&", "|", "<<", ">>", "~") and level in ("Lua51", "Lua52"):
+        if x in ("//", "&", "|", "<<", ">>", "~") and below("Lua53"):
             return "bitop-or-idiv"
-        if x in ("const", "close") and i > 0 and t[i - 1] == "<":
+        if x in ("const", "close") and i > 0 and t[i - 1] == "<" and below("Lua54"):
             return "attrib"
-        if x == "global":
+        if x == "global" and below("Lua55"):
             return "global"
-        if x == "goto":
-            return "goto-as-name" if level != "Lua51" else "goto"
-        if x == "::":
-            return "label"
-        if x == "t":
+        if x == "t" and below("Lua55"):
             return "named-vararg"
-        if "\\u" in x:
+        if x == "goto":
+            if level == "Lua51" and i + 1 < len(t) and t[i + 1] not in ("=",) and (i == 0 or t[i - 1] != "local"):
+                return "goto"
+            if level != "Lua51" and (i + 1 < len(t) and t[i + 1] == "=" or (i > 0 and t[i - 1] == "local")):
+                return "goto-as-name"
+        if x == "::" and below("Lua52"):
+            return "label"
+        if "\\u" in x and below("Lua53"):
             return "escape-u"
-        if "\\x" in x or "\\z" in x:
+        if ("\\x" in x or "\\z" in x) and below("Lua52"):
             return "escape-x-z"
-        if x.startswith("0x") and ("." in x or "p" in x):
+        if x.startswith("0x") and ("." in x or "p" in x) and below("Lua52"):
             return "hexfloat"
-        if "LL" in x or x == "2i":
+        if ("LL" in x or x == "2i"):
             return "jit-number"
-    if ";" in t:
+    if ";" in t and below("Lua52"):
         return "empty-statement"
     return "other"
 
@@ -108,11 +115,13 @@ def run(ctx):
             if lu_sem:
                 stats["semantic_rejections_skipped"] += 1
             elif lu_ok:
+                # luars accepts a text the grammar cannot derive: if the parser agrees this is one more positive case;
+                # if not, nothing but luars says it is valid Lua (luars 0.26 accepts e.g. `function return ( ) end`),
+                # so it is recorded as a divergence, not an alarm
                 stats["reference_accepts_corrupted"] += 1
                 ctx.count(("c", t), nontrivial=len(t) >= 3)
                 if e != 0:
-                    add("C03/false-error/Lua55/%s" % errclass(o["first"].get("Lua55")),
-                        {"text": text, "level": "Lua55", "judge": "luars accepts", "parser_error": o["first"].get("Lua55")})
+                    ctx.divergence({"luars_accepts_underivable_text": text, "parser_error": o["first"].get("Lua55")})
             else:
                 stats["negative_reference"] += 1
                 ctx.count(("c", t), nontrivial=len(t) >= 3)
